@@ -1,0 +1,127 @@
+//! Verification hooks (only compiled with `--cfg deadpool_verif`).
+//!
+//! A deterministic simulator installs a set of function pointers once per
+//! process. Until it does every hook in here is a no-op, and without the
+//! `deadpool_verif` cfg flag this module does not exist at all.
+
+use std::{
+    any::Any,
+    future::Future,
+    panic::{catch_unwind, AssertUnwindSafe},
+    pin::Pin,
+    sync::{Arc, Mutex, OnceLock},
+    task::{Context, Poll, Waker},
+};
+
+use crate::SpawnBlockingError;
+
+/// Job handed to the simulated blocking pool.
+pub type Job = Box<dyn FnOnce() + Send + 'static>;
+
+/// Function table installed by the simulator.
+#[derive(Clone, Copy, Debug)]
+pub struct Hooks {
+    /// Schedule point. Called outside of lock regions.
+    pub point: fn(&'static str),
+    /// Called right before a `Mutex::lock()`. The closure reports whether
+    /// the lock is currently held by somebody else. The hook must only
+    /// return once the closure reports `false`.
+    pub lock_point: fn(&'static str, &dyn Fn() -> bool),
+    /// Indicates whether blocking closures of the current thread should be
+    /// handed to `run_blocking` rather than the real runtime.
+    pub blocking_active: fn() -> bool,
+    /// Executes (eventually) the given job on a simulated blocking thread.
+    pub run_blocking: fn(Job),
+}
+
+static HOOKS: OnceLock<Hooks> = OnceLock::new();
+
+/// Installs the hooks. Returns `false` if hooks were already installed.
+pub fn install(hooks: Hooks) -> bool {
+    HOOKS.set(hooks).is_ok()
+}
+
+/// Schedule point.
+#[inline]
+pub fn point(site: &'static str) {
+    if let Some(h) = HOOKS.get() {
+        (h.point)(site)
+    }
+}
+
+/// Schedule point in front of a `Mutex::lock()` call.
+#[inline]
+pub fn lock_point(site: &'static str, would_block: impl Fn() -> bool) {
+    if let Some(h) = HOOKS.get() {
+        (h.lock_point)(site, &would_block)
+    }
+}
+
+/// Reports whether `Mutex::try_lock` failed because the lock is held.
+pub fn is_locked<T>(mutex: &Mutex<T>) -> bool {
+    matches!(mutex.try_lock(), Err(std::sync::TryLockError::WouldBlock))
+}
+
+pub(crate) fn blocking_seam_active() -> bool {
+    match HOOKS.get() {
+        Some(h) => (h.blocking_active)(),
+        None => false,
+    }
+}
+
+struct Slot<R> {
+    result: Option<Result<R, Box<dyn Any + Send + 'static>>>,
+    waker: Option<Waker>,
+}
+
+struct BlockingFuture<R>(Arc<Mutex<Slot<R>>>);
+
+impl<R> Future for BlockingFuture<R> {
+    type Output = Result<R, SpawnBlockingError>;
+    fn poll(self: Pin<&mut Self>, cx: &mut Context<'_>) -> Poll<Self::Output> {
+        let mut slot = self.0.lock().unwrap();
+        match slot.result.take() {
+            Some(Ok(r)) => Poll::Ready(Ok(r)),
+            Some(Err(p)) => Poll::Ready(Err(SpawnBlockingError::Panic(p))),
+            None => {
+                slot.waker = Some(cx.waker().clone());
+                Poll::Pending
+            }
+        }
+    }
+}
+
+pub(crate) fn spawn_blocking<F, R>(f: F) -> impl Future<Output = Result<R, SpawnBlockingError>>
+where
+    F: FnOnce() -> R + Send + 'static,
+    R: Send + 'static,
+{
+    let slot = Arc::new(Mutex::new(Slot {
+        result: None,
+        waker: None,
+    }));
+    let slot2 = slot.clone();
+    let job: Job = Box::new(move || {
+        let result = catch_unwind(AssertUnwindSafe(f));
+        let waker = {
+            let mut slot = slot2.lock().unwrap();
+            slot.result = Some(result);
+            slot.waker.take()
+        };
+        if let Some(waker) = waker {
+            waker.wake();
+        }
+    });
+    (HOOKS.get().unwrap().run_blocking)(job);
+    BlockingFuture(slot)
+}
+
+pub(crate) fn spawn_blocking_background<F>(f: F)
+where
+    F: FnOnce() + Send + 'static,
+{
+    let job: Job = Box::new(move || {
+        let _ = catch_unwind(AssertUnwindSafe(f));
+    });
+    (HOOKS.get().unwrap().run_blocking)(job);
+}
